@@ -3,7 +3,7 @@ VIEW GView
 CONSTANTS
   Names = {"a", "b", "c"}
   IntVals <- IV_small
-  Specials = {"none", "ref", "zz", "numstr", "mem"}
+  Specials = {"none", "ref", "zz"}
   DispNames = {"", "x"}
   MaxPieces = 2
   MaxExt = 1
